@@ -20,6 +20,7 @@ RULE = (
     "(thorough; quick: d=2 M<=4,k<=2 for B_2/C2^2/C4 + d=3 M<=3,k<=1). Each tuple: both scale modes. Non-trivial: expected "
     "dimension >= 1 (dimension-0 tuples are still checked: the family must be empty); distinct by tuple."
 )
+RULE += " Every subgroup of B_2 (10) and of B_3 (98; quick: one per conjugacy class, 33), enumerated by the reference module, on small tuples."
 RULE += " One assembly request for several side lengths (odd and even mixed, any order) is checked entry by entry."
 RULE += " Assembly functions are called with the parities / orders in varying order and container; each family is re-checked under the key it is filed under. Also: operator lists in shuffled order (2 of 3 cases), a decoy request for another group of equal order first, and (thorough) the two HEAVY tuples d=3 M=5 k=3 for C3 and C4z."
 EXHAUSTIVE = {"quick": True, "thorough": True}
@@ -90,6 +91,31 @@ def cases(tier, seed):
         out.append({"G": G, "D": D, "M": M, "k": k, "p": p})
     # heavier tuples first so that shards balance
     out.sort(key=lambda c: -((c["M"] ** c["D"]) * (c["D"] ** c["k"])))
+    for i, c in enumerate(out):
+        c["i"] = i  # fixed here so that the tuples appended below do not move the per-case streams of the ones above
+    # "every finite group of signed permutation matrices": ALL subgroups of B_2 (10) and of B_3 (98; quick: one per conjugacy
+    # class, 33), enumerated by the reference group module, on small tuples (the named groups above carry the large ones)
+    more = []
+    if tier == "quick":
+        for G in rgroup.all_subgroups(2):
+            more += [(G, 2, 3, 1, 0), (G, 2, 2, 1, 1), (G, 2, 4, 0, 0), (G, 2, 3, 2, 1)]
+        for G in rgroup.sub_class_reps(3):
+            more += [(G, 3, 2, 1, 0), (G, 3, 3, 0, 1)]
+    else:
+        for G in rgroup.all_subgroups(2):
+            more += [(G, 2, M, k, p) for M in range(1, 6) for k in range(0, 4) for p in (0, 1)]
+        for G in rgroup.all_subgroups(3):
+            more += [(G, 3, M, k, p) for M in range(1, 4) for k in range(0, 2) for p in (0, 1)] + [(G, 3, 2, 2, 0), (G, 3, 4, 0, 1)]
+    extra = []
+    for G, D, M, k, p in more:
+        dim_upper = (M**D) * (D**k)
+        if dim_upper > (220 if len(rgroup.all_subgroups(D)[G]) <= 3 else 1200):
+            continue
+        extra.append({"G": G, "D": D, "M": M, "k": k, "p": p})
+    extra.sort(key=lambda c: -((c["M"] ** c["D"]) * (c["D"] ** c["k"])))
+    for c in extra:
+        c["i"] = len(out)
+        out.append(c)
     return out
 
 
@@ -171,7 +197,7 @@ def run(case, ctx):
     import ginjax.geometric as geom
 
     G, D, M, k, p = (case[x] for x in ("G", "D", "M", "k", "p"))
-    ops = [np.asarray(g) for g in rgroup.subgroups(D)[G]]
+    ops = [np.asarray(g) for g in rgroup.group_named(D, G)]
     # a group is a set: the order in which its elements are listed must not matter (in particular the identity need not
     # come first); two of three cases pass a seeded shuffle of the list
     if case["i"] % 3:
